@@ -30,8 +30,9 @@ META = {
                     "DFS below each depth-1 prefix reuses the live world (its snapshot is verified after every "
                     "operation); any violation is recorded with the full operation list since the world was built "
                     "and re-confirmed by a from-scratch replay"],
-    "bounds": {"quick": {"history_depth": 2, "preemptions": 1},
-               "thorough": {"history_depth": 3, "preemptions": 2}},
+    "bounds": {"quick": {"history_depth": 2, "preemptions": "<= 1 over write-ish line points (before each write and at the line after it), 8 harnesses"},
+               "thorough": {"history_depth": 3, "preemptions": "<= 1 over ALL line points (8 harnesses); <= 2 over write-ish points for the "
+                                                                 "3 smallest harnesses (two-filters, same-rule-twice, part-combinations)"}},
     "technique": "stateless exploration of all operation histories on shared live objects + CHESS-style "
                  "preemption-bounded exploration of all 2-thread schedules under a cooperative line-level scheduler",
 }
